@@ -2,6 +2,8 @@ package main
 
 import (
 	"fmt"
+	"os"
+	"path/filepath"
 	"sort"
 	"strings"
 
@@ -254,6 +256,52 @@ func runC09(c *Ctx) error {
 			if strings.Join(got, "\n") != strings.Join(lone, "\n") {
 				res.Violate(hx.Violation{Signature: "run-state:node-depends-on-earlier-nodes", What: "what is reported for a statement depends on the statements evaluated before it in the same run",
 					Input: map[string]interface{}{"rules": isoNames[ei], "statements": poolTyped[i], "src": string(pool[i].Src)}, Impl: strings.Join(got, " | "), Spec: strings.Join(lone, " | ")})
+			}
+		}
+	}
+	// the same file NAME with new content: a driver (an editor integration, a watch mode) lints a file, the file is edited on
+	// disk, and the same RunnerState lints it again — what is reported is a function of the new content only
+	editDir := filepath.Join(hx.TempDir(), "c09-edit")
+	if err := os.MkdirAll(editDir, 0o755); err != nil {
+		return err
+	}
+	nEdit := 12
+	if c.Thorough {
+		nEdit = 150
+	}
+	for k := 0; k < nEdit; k++ {
+		path := filepath.Join(editDir, fmt.Sprintf("edited%d.go", k))
+		st := ruleguard.NewRunnerState(e)
+		var shared *ruleguard.RunContext
+		if rng.Intn(2) == 0 {
+			shared = &ruleguard.RunContext{}
+		}
+		var hist []string
+		versions := 2 + rng.Intn(3)
+		last := -1
+		for v := 0; v < versions; v++ {
+			fi := rng.Intn(nGood)
+			if fi == last {
+				fi = (fi + 1) % nGood
+			}
+			last = fi
+			if err := os.WriteFile(path, pool[fi].Src, 0o644); err != nil {
+				return err
+			}
+			t, err := hx.ParseTargetMem(path, string(pool[fi].Src))
+			if err != nil {
+				return fmt.Errorf("edited file: %v", err)
+			}
+			got, pk, _, err := hx.Run(e, t, hx.RunOpts{State: st, Ctx: shared})
+			if err != nil {
+				return err
+			}
+			hist = append(hist, fmt.Sprintf("%s := content of %s", filepath.Base(path), pool[fi].Name))
+			res.Count("edit-history", fmt.Sprintf("%d:%s", k, strings.Join(hist, ";")), v >= 1)
+			if pk != "" || reportsKey(got) != base[fi] {
+				res.Violate(hx.Violation{Signature: "run-state:same-file-name-new-content", What: "after a file was edited on disk, a run with the reused state does not report what its new content calls for",
+					Input: map[string]interface{}{"history": hist, "content_src": string(pool[fi].Src)}, Impl: pk + reportsKey(got), Spec: base[fi]})
+				break
 			}
 		}
 	}
